@@ -380,19 +380,21 @@ type acctStep struct {
 }
 
 type acctRun struct {
-	ae       *acctEnv
-	c        *acctCluster
-	run      *Run
-	sess     []*acctSess
-	steps    []acctStep
-	downBase int64
-	refused  int
-	hooks    *acctHooks
-	rep      map[string]interface{}
-	kind     string
-	stopSamp chan struct{}
-	sampDone chan struct{}
-	minObs   acctObs // smallest value of each counter seen by the sampler while the history ran
+	ae         *acctEnv
+	c          *acctCluster
+	run        *Run
+	sess       []*acctSess
+	steps      []acctStep
+	downBase   int64
+	refused    int
+	hooks      *acctHooks
+	rep        map[string]interface{}
+	kind       string
+	stopSamp   chan struct{}
+	sampDone   chan struct{}
+	initMax    int
+	maxChanged bool
+	minObs     acctObs // smallest value of each counter seen by the sampler while the history ran
 }
 
 // sample polls the counters while the history runs: "never negative in between".
@@ -489,10 +491,7 @@ func (ar *acctRun) record(action string, sess int, events []string, known string
 		run.Fail("l4:gauge-negative:"+tag, fmt.Sprintf("cluster %s: host/cluster upstream_connection_active = %d/%d, handler connections = %d after %s", ar.c.name, o.Host, o.Clu, o.Down, action), ar.rep)
 	}
 	live, open := int64(ar.live()), int64(ar.open())
-	wantRes := live
-	if ar.c.maxc == 0 {
-		wantRes = 0
-	}
+	wantRes := live // the resource counts what is open, also while no limit is set (fix c8b45b4d7)
 	if o.Res >= 0 && o.Res != wantRes {
 		sig := "l4:connections-resource-drift:" + tag
 		if open == 0 {
@@ -514,7 +513,7 @@ func (ar *acctRun) record(action string, sess int, events []string, known string
 		}
 		run.Fail(sig, fmt.Sprintf("cluster %s: the handler counts %d connections with %d downstream connections open after %s", ar.c.name, o.Down, open, action), ar.rep)
 	}
-	if ar.c.maxc > 0 && live > int64(ar.c.maxc) {
+	if ar.c.maxc > 0 && live > int64(ar.c.maxc) && !ar.maxChanged { // (lowering the limit does not close anything)
 		run.Fail("l4:threshold-not-enforced:"+tag, fmt.Sprintf("cluster %s: %d upstream connections are open with max_connections = %d", ar.c.name, live, ar.c.maxc), ar.rep)
 	}
 }
@@ -580,16 +579,32 @@ func (ar *acctRun) closeAll() {
 	}
 }
 
+// setMax changes max_connections of the cluster at run time through the real cluster manager (the resource manager and
+// its counter are kept, only the limit is replaced).
+func (ar *acctRun) setMax(m int) {
+	c := ar.c
+	cc := c.cfg
+	cc.CirBreThresholds = v2.CircuitBreakers{}
+	if m > 0 {
+		cc.CirBreThresholds = v2.CircuitBreakers{Thresholds: []v2.Thresholds{{MaxConnections: uint32(m)}}}
+	}
+	if err := ar.ae.e.cm.AddOrUpdateClusterAndHost(cc, c.hosts); err != nil {
+		ar.run.Fail("l4:cluster-update-failed", err.Error(), ar.rep)
+	}
+	c.maxc = m
+	ar.maxChanged = true
+}
+
 func (ar *acctRun) coqCase() string {
 	var groups []string
 	for _, st := range ar.steps {
 		groups = append(groups, fmt.Sprintf("(%s, mkObs %s %s %s %s %d%%nat)", CoqList(st.events), CoqZ(st.Obs.Res), CoqZ(st.Obs.Host), CoqZ(st.Obs.Clu), CoqZ(st.Obs.Down), st.Obs.Ovf))
 	}
-	return fmt.Sprintf("mkAcct (mkCfg %s %d%%nat) [%s]", CoqZ(int64(ar.c.maxc)), ar.c.tries, strings.Join(groups, ";\n   "))
+	return fmt.Sprintf("mkAcct (mkCfg %s %d%%nat) [%s]", CoqZ(int64(ar.initMax)), ar.c.tries, strings.Join(groups, ";\n   "))
 }
 
 func newAcctRun(ae *acctEnv, run *Run, c *acctCluster, kind string) *acctRun {
-	ar := &acctRun{ae: ae, c: c, run: run, kind: kind, hooks: &acctHooks{}}
+	ar := &acctRun{ae: ae, c: c, run: run, kind: kind, hooks: &acctHooks{}, initMax: c.maxc}
 	ar.rep = map[string]interface{}{"part": "l4-accounting", "cluster": c.name, "cluster_kind": c.kind, "max_connections": c.maxc, "history": kind}
 	setAcctHooks(ar.hooks)
 	ar.downBase = int64(numConns(ae.e))
@@ -658,6 +673,12 @@ func c10(args []string) int {
 						liveIdx = append(liveIdx, s.idx)
 					}
 				}
+				if c.kind == "acc" && r.Pct(12) {
+					m := r.Intn(4)
+					ar.setMax(m)
+					ar.record(fmt.Sprintf("set-max(%d)", m), 0, []string{fmt.Sprintf("SetMax %d", m)}, "max-connections-changed-at-run-time")
+					continue
+				}
 				if len(liveIdx) == 0 || (len(liveIdx) <= c.maxc+1 && r.Pct(55)) || (c.maxc == 0 && len(liveIdx) < 4 && r.Pct(55)) {
 					s := ar.openSession()
 					ar.record("open", s.idx, ar.dialEvents(s.idx), "")
@@ -694,6 +715,10 @@ func c10(args []string) int {
 					s.ended = true
 					ar.record("upstream-local-close", s.idx, []string{fmt.Sprintf("UpClose %d%%nat", s.idx)}, "")
 				}
+			}
+			if ar.maxChanged {
+				ar.setMax(ar.initMax)
+				ar.record(fmt.Sprintf("set-max(%d)", ar.initMax), 0, []string{fmt.Sprintf("SetMax %d", ar.initMax)}, "max-connections-changed-at-run-time")
 			}
 			// end: everything is closed - the idle point
 			for _, s := range ar.sess {
@@ -1060,48 +1085,53 @@ func c10(args []string) int {
 		finish(ar, false)
 	}
 
-	// ---- (10) max_connections is changed while connections are open (finder only)
-	{
+	// ---- (10) max_connections is changed while connections are open (the defect repaired by c8b45b4d7: the finder stays)
+	for rep := 0; rep < run.N(1, 6); rep++ {
 		c := ae.clusters["acct-acc-m0-upd"]
 		ar := newAcctRun(ae, run, c, "max-connections-update")
-		ar.rep["known_tag"] = "max-connections-changed-at-run-time"
+		const tag = "max-connections-changed-at-run-time"
+		ar.rep["known_tag"] = tag
 		s1 := ar.openSession()
+		ar.record("open", s1.idx, ar.dialEvents(s1.idx), tag)
 		s2 := ar.openSession()
-		ar.record("open-two-unlimited", 0, nil, "")
-		upd := func(m int) {
-			cc := c.cfg
-			cc.CirBreThresholds = v2.CircuitBreakers{}
-			if m > 0 {
-				cc.CirBreThresholds = v2.CircuitBreakers{Thresholds: []v2.Thresholds{{MaxConnections: uint32(m)}}}
-			}
-			if err := ae.e.cm.AddOrUpdateClusterAndHost(cc, c.hosts); err != nil {
-				run.Fail("l4:cluster-update-failed", err.Error(), ar.rep)
-			}
-			c.maxc = m
-		}
-		upd(3)
-		ar.record("max_connections:0->3", 0, nil, "max-connections-changed-at-run-time")
+		ar.record("open", s2.idx, ar.dialEvents(s2.idx), tag)
+		ar.setMax(3)
+		ar.record("set-max(3)", 0, []string{"SetMax 3"}, tag)
 		for _, s := range []*acctSess{s1, s2} {
 			if s.estab {
 				s.cli.Close()
 				s.up.waitDone(acctLimit)
 				s.ended = true
+				ar.record("client-close", s.idx, []string{fmt.Sprintf("DownClose %d%%nat", s.idx)}, tag)
 			}
 		}
-		ar.record("close-both", 0, nil, "max-connections-changed-at-run-time")
 		s3 := ar.openSession()
-		ar.record("open-limited", 0, nil, "max-connections-changed-at-run-time")
-		upd(0)
+		ar.record("open", s3.idx, ar.dialEvents(s3.idx), tag)
+		ar.setMax(0)
+		ar.record("set-max(0)", 0, []string{"SetMax 0"}, tag)
 		if s3.estab {
 			s3.cli.Close()
 			s3.up.waitDone(acctLimit)
 			s3.ended = true
+			ar.record("client-close", s3.idx, []string{fmt.Sprintf("DownClose %d%%nat", s3.idx)}, tag)
 		}
-		upd(3)
-		ar.record("3->0,close,0->3", 0, nil, "max-connections-changed-at-run-time")
-		upd(0)
-		c.maxc = 0
-		finish(ar, false)
+		ar.setMax(1)
+		ar.record("set-max(1)", 0, []string{"SetMax 1"}, tag)
+		s4 := ar.openSession()
+		ar.record("open", s4.idx, ar.dialEvents(s4.idx), tag)
+		s5 := ar.openSession() // the second one at limit 1 must be refused
+		ar.record("open", s5.idx, ar.dialEvents(s5.idx), tag)
+		for _, s := range []*acctSess{s4, s5} {
+			if s.estab && !s.ended {
+				s.cli.Close()
+				s.up.waitDone(acctLimit)
+				s.ended = true
+				ar.record("client-close", s.idx, []string{fmt.Sprintf("DownClose %d%%nat", s.idx)}, tag)
+			}
+		}
+		ar.setMax(0)
+		ar.record("set-max(0)", 0, []string{"SetMax 0"}, tag)
+		finish(ar, true)
 	}
 	sh.Close()
 
